@@ -5,6 +5,7 @@
 -/
 import TdVerif.Lemmas.C11Reduce
 import TdVerif.Gen.Dtypes
+import TdVerif.Lemmas.C11Pytree
 
 namespace TdVerif.Props.C11
 open TdVerif.C11
@@ -215,6 +216,23 @@ theorem file_device_counterexample :
     let c := step s0 (.consolidate true)
     reduceFixed c ≠ observe c ∧ (reduceFixed c).norm = (observe c).norm := by
   decide
+
+/-! ## 3b. pytree -/
+
+/-- `tree_unflatten(*tree_flatten(td))` rebuilds the same keys, nesting, batch sizes, names, devices and
+    leaves for every nested tensordict — with every (sub-)tensordict **unlocked** (the context does not
+    record the lock state): equality holds exactly for unlocked tensordicts. -/
+theorem pytree_roundtrip (t : PT) :
+    (unflatten (flatten t).2 (flatten t).1).map (·.1) = some (unlockAll t) := by
+  have := unflatten_flatten t []
+  simp only [List.append_nil] at this
+  simp [this]
+
+/-- the lock state is lost (known finding `C11-pytree-lock`, replayed by the check) -/
+theorem pytree_lock_counterexample :
+    let t := PT.node [2] none none true [("a", .leaf 0)]
+    (unflatten (flatten t).2 (flatten t).1).map (·.1) = some (PT.node [2] none none false [("a", .leaf 0)]) := by
+  simp [flatten, flattenKids, unflatten, unflattenKids]
 
 /-! ## 4. the dtype tables (regenerated from the source on every run) -/
 
